@@ -86,18 +86,21 @@ Proof.
 Qed.
 
 (* ---- the stack below a mark is kept ---- *)
+(* m_cap is the model's note of which activations were captured by a function value (used only to flag
+   the reads findings K1/K2 are about); a finished call removes its serial from it *)
 Definition msame (b : Z) (m m' : mem) : Prop :=
-  m_fp m' = m_fp m /\ m_clos m' = m_clos m /\ m_serials m' = m_serials m /\ m_cap m' = m_cap m /\
+  m_fp m' = m_fp m /\ m_clos m' = m_clos m /\ m_serials m' = m_serials m /\ incl (m_cap m') (m_cap m) /\
   firstn (Z.to_nat b) (m_stack m') = firstn (Z.to_nat b) (m_stack m) /\
   b <= m_sp m' <= zlen (m_stack m').
 
 Lemma msame_refl m : 0 <= m_sp m <= zlen (m_stack m) -> msame (m_sp m) m m.
-Proof. intros H. unfold msame. repeat split; try reflexivity; lia. Qed.
+Proof. intros H. unfold msame. repeat split; try reflexivity; try apply incl_refl; lia. Qed.
 
 Lemma msame_trans b b1 m m1 m2 : b <= b1 -> msame b m m1 -> msame b1 m1 m2 -> msame b m m2.
 Proof.
   intros Hb (F1 & C1 & S1 & P1 & T1 & B1) (F2 & C2 & S2 & P2 & T2 & B2). unfold msame.
-  repeat split; try congruence; try lia.
+  split; [congruence|]. split; [congruence|]. split; [congruence|]. split; [exact (incl_tran P2 P1)|].
+  split; [|lia].
   assert (H : forall l : list value, firstn (Z.to_nat b) l = firstn (Z.to_nat b) (firstn (Z.to_nat b1) l)).
   { intros l. rewrite firstn_firstn. f_equal. lia. }
   rewrite (H (m_stack m2)), T2, <- H. exact T1.
@@ -145,7 +148,8 @@ Proof.
   unfold msame, with_stack; cbn [m_fp m_clos m_serials m_cap m_stack m_sp].
   unfold zlen in *. rewrite Esp.
   split; [|split].
-  - repeat split; try assumption.
+  - split; [assumption|]. split; [assumption|]. split; [assumption|]. split; [rewrite Ecap; apply incl_refl|].
+    split; [|split].
     + rewrite firstn_zset by lia.
       rewrite <- Efst. rewrite firstn_firstn. f_equal. lia.
     + lia.
@@ -167,7 +171,8 @@ Qed.
 
 Lemma mdrop_msame b m0 m : msame b m0 m -> b <= m_sp m - 1 -> msame b m0 (mdrop m).
 Proof.
-  intros (F & C & S & P & T & B) Hb. unfold msame, mdrop, with_stack; cbn. repeat split; try assumption; lia.
+  intros (F & C & S & P & T & B) Hb. unfold msame, mdrop, with_stack; cbn [m_fp m_clos m_serials m_cap m_stack m_sp].
+  split; [assumption|]. split; [assumption|]. split; [assumption|]. split; [assumption|]. split; [assumption|lia].
 Qed.
 
 (* ---- operand fetching ---- *)
